@@ -92,7 +92,8 @@ def main():
     for v in (VERSIONS if a.tier == 'thorough' else QUICK_VERSIONS):
         try:
             seg = Segment('NTE', version=v)
-            seg.nte_3 = lib(v).get_base_datatypes()['FT']('a|b^c&d~e#f')
+            nte3_dt = lib(v).SEGMENTS['NTE'][1][2][1][2]          # FT from 2.2 on, TX in 2.1
+            seg.nte_3 = lib(v).get_base_datatypes()[nte3_dt]('a|b^c&d~e#f')
             text = seg.to_er7()
             body = text.split('|', 3)[3] if text.count('|') >= 3 else ''
             raw = [c for c in '|^&~' + ('#' if v >= '2.7' else '') if c in body]
